@@ -75,7 +75,7 @@ def main():
                           "(DESIGN §11): rules that compare the shape of statements abstain (exit 2, undecided) on functions whose "
                           "statement structure no longer matches the reference tree, and obligations that meet a form the engines "
                           "cannot evaluate are undecided. Measured on 93 behaviour-preserving refactors written by independent "
-                          "sub-agents (DESIGN §6, §13, §14): none draws a false VIOLATION any more, about a quarter leave at least one check "
+                          "sub-agents (DESIGN §6, §13, §14): none draws a false VIOLATION any more, 29 leave at least one check "
                           "undecided (exit 2); every new batch first found forms that raised alarms and had to be answered by a canonical form "
                           "or an evaluator — the main weakness of this rule base. Two rule families compare with tables frozen from the "
                           "confirmed tree (vk/refnames.json for renaming / drift, vk/refeffects.json for the path conditions of effects); "
